@@ -1,10 +1,13 @@
 use crate::traits::compression::Decompress;
-use anyhow::Result;
+use anyhow::{bail, Result};
 use brotli::Decompressor;
 use bytes::Bytes;
 use std::io::Read;
 
 const BUFFER_SIZE: usize = 4096;
+
+// The first seven bits of a "Large Window Brotli" stream: the window-size code that RFC 7932 leaves unused
+const LARGE_WINDOW_MARKER: u8 = 0x11;
 
 /// Decompression half of Brotli implementation.
 ///
@@ -15,6 +18,13 @@ pub struct BrotliDecomp;
 
 impl Decompress for BrotliDecomp {
     fn decompress(&self, input: Bytes) -> Result<Bytes> {
+        // The decoder allocates its window as soon as it has read the stream header. `BrotliComp`
+        // produces RFC 7932 streams (windows of up to 16 MiB); the "Large Window" extension lets a
+        // five-byte header ask for up to 1 GiB, so such streams are not accepted off the wire.
+        if matches!(input.first(), Some(b) if b & 0x7f == LARGE_WINDOW_MARKER) {
+            bail!("Large Window Brotli streams are not supported");
+        }
+
         let mut buf = Vec::new();
         let mut decoder = Decompressor::new(&input[..], BUFFER_SIZE);
         decoder.read_to_end(&mut buf)?;
